@@ -64,8 +64,58 @@ def _frames(block_lines):
     return out
 
 
+def parse_sanitizer_text(tool, text):
+    """Returns [(key, text, in_repo)] for the reports found in one sanitizer log (or a stderr capture)."""
+    reports = []
+    if tool == "tsan":
+        blocks = re.split(r"(?m)^={18}\n", text)
+        for blk in blocks:
+            m = re.search(r"WARNING: ThreadSanitizer: ([^\n(]+)", blk)
+            if not m:
+                continue
+            kind = m.group(1).strip().replace(" ", "-")
+            # split into the stacks of the two accesses; innermost repo frame of each
+            parts = re.split(r"(?m)^\s*(?:Previous|Write|Read|Atomic)[^\n]*\n", blk)
+            inner = []
+            for p in parts:
+                fr = _frames(p.splitlines())
+                if fr:
+                    inner.append(fr[0][0])
+            inner = sorted(set(inner[:2])) if inner else ["no-repo-frame"]
+            loc = re.search(r"Location is global '([^']+)'", blk)
+            key = "tsan:%s:%s%s" % (kind, "|".join(inner), (":" + loc.group(1)) if loc else "")
+            in_repo = inner != ["no-repo-frame"]
+            reports.append((key, blk[:6000], in_repo))
+        return reports
+    lines = text.splitlines()
+    m = re.search(r"ERROR: (?:AddressSanitizer|LeakSanitizer): ([^\n]+)", text)
+    if m:
+        kind = m.group(1).split(" on ")[0].split(":")[0].strip().replace(" ", "-")
+        if kind.startswith("detected-memory-leaks"):
+            kind = "memory-leak"
+    else:
+        m2 = re.search(r"runtime error: ([^\n]+)", text)
+        if not m2:
+            if "DEADLYSIGNAL" in text:
+                kind = "deadly-signal"
+            else:
+                return reports
+        else:
+            kind = "ubsan-" + re.sub(r"[^a-z]+", "-", m2.group(1).lower())[:60].strip("-")
+    fr = _frames(lines)
+    site = "|".join(f[0] for f in fr[:2]) if fr else "no-repo-frame"
+    if not fr:
+        m3 = re.search(r"(/\S+/src/(\S+?)):(\d+):(\d+): runtime error", text)
+        if m3:
+            site = m3.group(2)
+    loc = re.search(r"(?m)^(/\S+?):\d+:\d+: runtime error", text)
+    in_repo = bool(fr) or (loc is not None and loc.group(1).startswith(B.REPO.rstrip("/") + "/"))
+    reports.append(("%s:%s:%s" % (tool, kind, site), text[:8000], in_repo))
+    return reports
+
+
 def parse_sanitizer_logs(prefix):
-    """Returns a list of (key, text) for every distinct report found in files starting with `prefix`."""
+    """Returns a list of (key, text, in_repo) for every distinct report found in files starting with `prefix`."""
     d = os.path.dirname(prefix)
     base = os.path.basename(prefix)
     reports = []
@@ -77,50 +127,7 @@ def parse_sanitizer_logs(prefix):
             continue
         if tool == "lsan":
             tool = "asan"  # gcc's runtimes share the log_path flag: ASan reports may land in the file named for LSan
-        text = open(os.path.join(d, fn), errors="replace").read()
-        if tool == "tsan":
-            blocks = re.split(r"(?m)^={18}\n", text)
-            for blk in blocks:
-                m = re.search(r"WARNING: ThreadSanitizer: ([^\n(]+)", blk)
-                if not m:
-                    continue
-                kind = m.group(1).strip().replace(" ", "-")
-                # split into the stacks of the two accesses; innermost repo frame of each
-                parts = re.split(r"(?m)^\s*(?:Previous|Write|Read|Atomic)[^\n]*\n", blk)
-                inner = []
-                for p in parts:
-                    fr = _frames(p.splitlines())
-                    if fr:
-                        inner.append(fr[0][0])
-                inner = sorted(set(inner[:2])) if inner else ["no-repo-frame"]
-                loc = re.search(r"Location is global '([^']+)'", blk)
-                key = "tsan:%s:%s%s" % (kind, "|".join(inner), (":" + loc.group(1)) if loc else "")
-                in_repo = inner != ["no-repo-frame"]
-                reports.append((key, blk[:6000], in_repo))
-        else:
-            lines = text.splitlines()
-            m = re.search(r"ERROR: (?:AddressSanitizer|LeakSanitizer): ([^\n]+)", text)
-            if m:
-                kind = m.group(1).split(" on ")[0].split(":")[0].strip().replace(" ", "-")
-                if kind.startswith("detected-memory-leaks"):
-                    kind = "memory-leak"
-            else:
-                m2 = re.search(r"runtime error: ([^\n]+)", text)
-                if not m2:
-                    if "DEADLYSIGNAL" in text:
-                        kind = "deadly-signal"
-                    else:
-                        continue
-                else:
-                    kind = "ubsan-" + re.sub(r"[^a-z]+", "-", m2.group(1).lower())[:60].strip("-")
-                    m3 = re.search(r"(\S+/src/\S+?):(\d+):(\d+): runtime error", text)
-            fr = _frames(lines)
-            site = "|".join(f[0] for f in fr[:2]) if fr else "no-repo-frame"
-            if not fr:
-                m3 = re.search(r"(/\S+/src/(\S+?)):(\d+):(\d+): runtime error", text)
-                if m3:
-                    site = m3.group(2)
-            reports.append(("%s:%s:%s" % (tool, kind, site), text[:8000], bool(fr) or "runtime error" in text))
+        reports += parse_sanitizer_text(tool, open(os.path.join(d, fn), errors="replace").read())
     return reports
 
 
@@ -289,7 +296,11 @@ def run_check(prop, cfg, tier, seed, replay=None):
         # sanitizer logs
         san_found = False
         if t["variant"] in SAN_ENV:
-            for key, text, in_repo in parse_sanitizer_logs(t["log"]):
+            found = parse_sanitizer_logs(t["log"])
+            if not found and err and t["variant"] != "tsan" and ("runtime error:" in err or "ERROR: AddressSanitizer" in err):
+                # gcc's UBSan ignores log_path when it shares the process with ASan: the report is on stderr
+                found = parse_sanitizer_text("asan" if "ERROR: AddressSanitizer" in err else "ubsan", err)
+            for key, text, in_repo in found:
                 san_found = True
                 if in_repo:
                     violations.append((key, {"sanitizer_log": text, "case": case_hint, "_cmd": t["cmd"], "_variant": t["variant"]}))
